@@ -220,6 +220,12 @@ def judge(case):
         return fails
     if list(back.keys()) != names:
         fails.append(Failure("C19.decode", "decoded-part-order-or-set-differs", f"text={text!r} keys={list(back.keys())!r}"))
+    try:      # handed exactly what to_ical() returned (bytes), the decoder gives what it gives for the same text
+        lit = vRecur.from_ical(text.encode("utf-8"))
+        if list(lit.keys()) != list(back.keys()) or lit.to_ical() != back.to_ical():
+            fails.append(Failure("C19.decode", "decoding-the-bytes-of-to_ical-differs", f"{text!r}: {dict(lit)!r} vs {dict(back)!r}"[:300]))
+    except Exception as e:  # noqa: BLE001
+        fails.append(Failure("C19.decode", "decoding-the-bytes-of-to_ical-raises/" + exc_signature(e), f"{text!r}: {e!r}"[:300]))
     for k, exp in expected.items():
         got = back.get(k)
         if got is None:
